@@ -8,9 +8,26 @@ NAMES = ["a1", "a2", "a3", "b1", "b2", "b3", "c1", "c2", "c3"]
 
 
 class _Never:
-    """result of np.abs(volume): the recorded branch `abs(volume) < tol.zero` is taken as False"""
+    """result of np.abs(volume): the recorded branch `abs(volume) < threshold` is taken as False"""
     def __lt__(self, o):
         return False
+
+    def __le__(self, o):
+        return False
+
+
+class _Extent:
+    """result of np.ptp(coordinates) / np.abs(triangles) and what is derived from it (max, powers, multiples): a non-negative size
+    of the coordinates that only enters the threshold of the "no volume" branch"""
+    def max(self, *a, **k):
+        return self
+
+    def __pow__(self, o):
+        return self
+
+    def __mul__(self, o):
+        return self
+    __rmul__ = __mul__
 
 
 def trace():
@@ -20,6 +37,9 @@ def trace():
     branches = []
 
     def hook(kind, x):
+        if kind == "ptp" or (isinstance(x, real_np.ndarray) and x.ndim >= 2):
+            # spread / magnitude of the coordinates of all triangles: only used to scale the threshold
+            return _Extent()
         branches.append(kind)
         return _Never()
     saved = T.np
